@@ -34,10 +34,11 @@ def comment_signature(case, o, v):
     text = case["text"].encode("utf-8")
     stop = toks[end]["o"] + len(toks[end]["t"].encode("utf-8"))
     rest = text[stop:].split(b"\n")[0].strip()
-    if not rest:
+    nxt = [t for t in toks[end + 1:] if not t.get("c")]
+    if nxt and nxt[0]["k"] == "TkSemicolon":
+        where = "before-semicolon"      # the comment sits between a statement and its `;` (also across a line end)
+    elif not rest:
         where = "end-of-line"
-    elif rest.startswith(b";"):
-        where = "before-semicolon"
     else:
         where = "before-code-on-same-line"
     return "C05/comment-%s/%s" % (what, where)
@@ -52,6 +53,8 @@ def signature(case, v, prev="", o=None):
     code_a, code_b = not a.get("c"), not b.get("c")
     if v.get("semiHazard"):
         return "C05/semicolon-dropped-before-paren"
+    if (a["k"] == "#Comment") != (b["k"] == "#Comment") and o is not None:
+        return comment_signature(case, o, v)
     if a["k"] == "#Unparsed":
         return "C05/unparsed-tail-dropped"
     if code_a and a["k"] == "TkSemicolon" and cfg["keepSemi"]:
@@ -70,8 +73,6 @@ def signature(case, v, prev="", o=None):
             n -= 1
         ka, kb = x[n:].split("(")[0].split(")")[0], y[n:].split("(")[0].split(")")[0]
         return "C05/doc-structure-changed/%s->%s" % (ka or "end", kb or "end")
-    if (a["k"] == "#Comment") != (b["k"] == "#Comment") and o is not None:
-        return comment_signature(case, o, v)
     where = "doc" if (a.get("c") or b.get("c")) else "code"
     return "C05/stuck/%s/%s->%s" % (where, a["k"], b["k"])
 
